@@ -13,15 +13,99 @@ def make_sim_case(rng, kind=None, space_kind=None, max_cells=6, chem=True, react
     n, ns = sysgen.ncells(desc), len(desc["species"])
     # integer molecule counts (stochastic engines need them; 'none' processing is used)
     state = [float(rng.choice([0, 0, 1, 2, 3, 5, 8, 13, 20])) for _ in range(n * ns)]
-    chs = [bool(chem and rng.random() < 0.2) for _ in range(n * ns)]
+    # per species: no flag at all (so that its conservation laws stay usable), or a random subset of the cells
+    chs = []
+    for _s in range(ns):
+        if not chem or rng.random() < 0.5:
+            chs += [False] * n
+        else:
+            chs += [rng.random() < 0.4 for _ in range(n)]
     us = sysgen.rand_sys(rng)
     dt = 2.0 ** -rng.randint(3, 8)
     steps = rng.randint(3, max_steps)
     nsamp = rng.randint(2, 12)
     ts = sorted(set(round(rng.uniform(0, steps * dt) / dt) * dt for _ in range(nsamp)))
-    return {"desc": desc, "state": state, "state_units": ["µm", "s", "molecule"], "chs": chs, "units": us, "engine": kind,
+    c = {"desc": desc, "state": state, "state_units": ["µm", "s", "molecule"], "chs": chs, "units": us, "engine": kind,
             "dt": dt, "t_sample": ts, "t_max": steps * dt, "policy": rng.choice(["on_t_sample", "on_t_sample", "on_iteration", "on_interval"]),
             "interval": dt * rng.randint(1, 8), "seed": rng.randrange(2 ** 31), "init": "none"}
+    if rng.random() < 0.9:
+        tune_time_step(c)
+    return c
+
+
+def _si(q, owner, dim):
+    v, sy, d = sysgen.qty_resolved(q, owner, dim)
+    return Fr(v) * si.si_scale(sy, d)
+
+
+def _env_si(ev, env, owner, dim):
+    if "scalar" in ev:
+        return _si(ev["scalar"], owner, dim)
+    d = dict((k, q) for k, q in ev["dict"])
+    q = d.get(env, d.get("default"))
+    return _si(q, owner, dim) if q is not None else Fr(0)
+
+
+def max_rate(desc, molecules=10):
+    """largest first-order rate constant (1/s, SI) of any diffusion hop or (pseudo first order, with
+    `molecules` per cell) reaction channel; used only to choose a time step at which something happens
+    without the leap overshooting"""
+    sp = desc["space"]
+    envs = desc["envs"]
+    if sp["type"] == "grid":
+        n = sysgen.ncells(desc)
+        h = [_si(sp["edge"], sp["units"], sysgen.DIMS["distance"])] * n
+        cenv = list(sp["env"])
+    else:
+        h = [_si(nd["edge"], nd["units"], sysgen.DIMS["distance"]) for nd in sp["nodes"]]
+        cenv = [nd["env"] for nd in sp["nodes"]]
+    best = Fr(0)
+    na = si.NA
+    for s in desc["species"]:
+        Ds = [_env_si(s["D"], envs[e], s["units"], sysgen.DIMS["D"]) for e in cenv]
+        if sp["type"] == "grid":
+            for i in range(len(h)):
+                best = max(best, 6 * Ds[i] / (h[i] * h[i]))
+        else:
+            out = [Fr(0)] * len(h)
+            for e in sp["edges"]:
+                i, j = e["i"], e["j"]
+                if Ds[i] == 0 or Ds[j] == 0:
+                    continue
+                dint = (h[i] + h[j]) / (h[i] / Ds[i] + h[j] / Ds[j])
+                sf = _si(e["surface"], e["units"], sysgen.DIMS["surface"])
+                ds = _si(e["distance"], e["units"], sysgen.DIMS["distance"])
+                out[i] += dint * sf / (ds * h[i] ** 3)
+                out[j] += dint * sf / (ds * h[j] ** 3)
+            best = max([best] + out)
+    for r in desc["reactions"]:
+        for key, side in (("kf", "sub"), ("kr", "prod")):
+            order = sum(r[side].values())
+            for i in range(len(h)):
+                k = _env_si(r[key], envs[cenv[i]], r["units"], sysgen.kdim(order))
+                vol = h[i] ** 3
+                # molecules/s produced per cell at `molecules` per species: k * V * (n / (NA V))^order * NA
+                rate = k * vol * (Fr(molecules) / (na * vol)) ** order * na
+                best = max(best, rate / max(1, molecules) * max(1, order))
+    return best
+
+
+def tune_time_step(c, target=0.1):
+    """dyadic time step (in the script's time unit) such that the fastest channel fires with probability ~target per step"""
+    m = max_rate(c["desc"])
+    if m <= 0:
+        return
+    import math
+    dt_si = Fr(target) / m
+    dt_script = dt_si / si.SI_TIME[c["units"][1]]
+    e = math.floor(math.log2(float(dt_script))) if dt_script > 0 else -8
+    e = max(-60, min(60, e))
+    old = c["dt"]
+    c["dt"] = 2.0 ** e
+    k = c["dt"] / old
+    c["t_sample"] = [t * k for t in c["t_sample"]]
+    c["t_max"] *= k
+    c["interval"] *= k
 
 
 def engine_units(c):
@@ -41,7 +125,7 @@ def build_script(strengths, c, sanitize=False):
                               init_state_processing=c["init"], units_system=us)
 
 
-def run(c, max_iter=200000):
+def run(c, max_iter=20000):
     """samples (species-major lists of floats, in script units), times, iterations performed"""
     import strengths
     script = build_script(strengths, c)
